@@ -212,3 +212,14 @@ def all_traces(repo) -> List[Trace]:
     if key not in _CACHE:
         _CACHE[key] = [trace_update(repo, sc) for sc in scenarios()]
     return _CACHE[key]
+
+
+def result_fields(val) -> Optional[List[Any]]:
+    """The values of the SolverResult an update returned, in field order (SolverResult is a NamedTuple: a Record of the model; or an
+    opaque constructor call when the class is not known)."""
+    from .smallstep import Record
+    if isinstance(val, Record):
+        return list(val.values.values())
+    if isinstance(val, Opaque) and val.parts and val.parts[0] == "call" and val.parts[1].split(".")[-1] == "SolverResult":
+        return list(val.parts[2]) + list(val.parts[3].values())
+    return None
